@@ -496,7 +496,7 @@ class DistCfg:
     max_size: int = 36
     p_zero: float = 0.04
     dtypes: tuple[str, ...] = ("int32", "int64", "float64")
-    p_impl_stored: float = 0.15
+    p_impl_stored: float = 0.10
     patterns: tuple[str, ...] | None = None
     min_ranks: int = 1
 
@@ -753,7 +753,7 @@ class _Builder:
             i = dead[0]
             spec["outputs"].append([f"out{len(spec['outputs'])}", i])
         # materialisation tags anywhere
-        pst = int(self.cfg.p_impl_stored * 100)
+        pst = int(self.cfg.p_impl_stored * 100) if self.stored else 0
         for i in sorted(set(reachable_nodes(spec))):
             nd = g.nodes[i]
             if nd["op"] == "sendhold":
@@ -770,12 +770,15 @@ class _Builder:
 
     def run(self):
         cfg, d = self.cfg, self.draw
-        n = progen._w(d, [(w, k) for w, k in ((1, 1), (5, 2), (5, 3), (3, 4))
+        # (Hypothesis favours the first entry of a pool in its earliest, simplest
+        # examples: the interesting choices come first)
+        n = progen._w(d, [(w, k) for w, k in ((5, 3), (5, 2), (3, 4), (1, 1))
                           if cfg.min_ranks <= k <= cfg.max_ranks])
         pats = list(cfg.patterns or PATTERNS)
         weights = {"none": 1, "random": 5, "ring": 3, "ringdep": 2,
                    "star_out": 2, "star_in": 2, "star_both": 2, "chain": 3,
                    "double": 3, "pingpong": 3, "forward": 3, "exchange2": 2}
+        pats.sort(key=lambda p: (p == "none", p != "pingpong"))
         pattern = "none" if n == 1 else progen._w(
             d, [(weights[p], p) for p in pats])
         dims = [self.integers(1, cfg.max_len)
@@ -788,6 +791,7 @@ class _Builder:
             max_ndim=3, max_len=cfg.max_len, max_size=cfg.max_size,
             data_wrappers=True)
         gens = [_RankGen(d, gcfg, dims, r) for r in range(n)]
+        self.stored = not self.boolean(1, 4)
         for g in gens:
             for _ in range(self.integers(1, 2)):
                 g.new_input()
@@ -837,3 +841,231 @@ def pretty(case) -> str:
         lines.append("   outputs: " + ", ".join(f"{k}=%{i}"
                                                  for k, i in s["outputs"]))
     return "\n".join(lines)
+
+
+# {{{ structural minimiser for multi-rank cases
+
+def _ncomm(case) -> int:
+    n = 0
+    for s in case["ranks"]:
+        live = set(reachable_nodes(s))
+        n += sum(1 for i in live if s["nodes"][i]["op"] in ("recv", "sendhold"))
+    return n
+
+
+def _redirect(spec, i: int, j: int) -> dict:
+    """references to node i (operands and outputs) become references to j."""
+    out = copy.deepcopy(spec)
+    for n in out["nodes"]:
+        if "args" in n:
+            n["args"] = [["n", j] if (a[0] == "n" and a[1] == i) else a
+                         for a in n["args"]]
+    out["outputs"] = [[k, j if q == i else q] for k, q in out["outputs"]]
+    return out
+
+
+def drop_message(case, m: dict, vals) -> dict | None:
+    """remove one matched send/receive pair: the holder is replaced by its
+    pass-through operand, the receive by an input carrying its value."""
+    from pvf.minimize import _value_to_input
+    if m["recv"] is None:
+        return None
+    out = copy.deepcopy(case)
+    src, dst = m["src"], m["dst"]
+    hold = out["ranks"][src]["nodes"][m["hold"]]
+    out["ranks"][src] = _redirect(out["ranks"][src], m["hold"],
+                                  hold["args"][1][1])
+    v = vals[dst][m["recv"]]
+    if v is None:
+        return None
+    names = {n["p"].get("name") for n in out["ranks"][dst]["nodes"]
+             if n["op"] == "placeholder"}
+    k = 0
+    while f"m{k}" in names:
+        k += 1
+    repl = _value_to_input(v, f"m{k}")
+    if repl is None:
+        return None
+    out["ranks"][dst]["nodes"][m["recv"]] = repl
+    return gc_case(out)
+
+
+def drop_rank(case, r: int) -> dict | None:
+    if case["nranks"] <= 1:
+        return None
+    for q, s in enumerate(case["ranks"]):
+        for n in s["nodes"]:
+            if n["op"] == "recv" and (q == r or n["p"]["src"] == r):
+                return None
+            if n["op"] == "sendhold" and (q == r or n["p"]["dest"] == r):
+                return None
+    out = copy.deepcopy(case)
+    del out["ranks"][r]
+    out["nranks"] -= 1
+    for s in out["ranks"]:
+        for n in s["nodes"]:
+            if n["op"] == "recv" and n["p"]["src"] > r:
+                n["p"]["src"] -= 1
+            if n["op"] == "sendhold" and n["p"]["dest"] > r:
+                n["p"]["dest"] -= 1
+    return out
+
+
+def minimize_case(case, still_fails, budget: int = 70) -> dict:
+    """Greedy reduction of a *valid* multi-rank case that keeps it valid
+    (messages are only removed in matched pairs; nothing that communicates
+    becomes dead)."""
+    from pvf.minimize import _value_to_input
+    used = [0]
+
+    def test(c) -> bool:
+        if used[0] >= budget:
+            return False
+        used[0] += 1
+        try:
+            return bool(still_fails(c))
+        except Exception:  # noqa: BLE001
+            return False
+
+    best = gc_case(copy.deepcopy(case))
+
+    def values(c):
+        try:
+            return eval_np_case(c)
+        except Exception:  # noqa: BLE001
+            return None
+
+    # 1. messages, last first
+    changed = True
+    while changed and used[0] < budget:
+        changed = False
+        vals = values(best)
+        if vals is None:
+            break
+        for m in reversed(messages(best)):
+            cand = drop_message(best, m, vals)
+            if cand is not None and test(cand):
+                best = cand
+                changed = True
+                break
+    # 2. idle ranks
+    r = best["nranks"] - 1
+    while r >= 0 and used[0] < budget:
+        cand = drop_rank(best, r)
+        if cand is not None and test(cand):
+            best = cand
+        r -= 1
+    # 3. tags
+    if any(n.get("tags") for s in best["ranks"] for n in s["nodes"]):
+        cand = copy.deepcopy(best)
+        for s in cand["ranks"]:
+            for n in s["nodes"]:
+                n.pop("tags", None)
+        if test(cand):
+            best = cand
+        else:
+            for ri, s in enumerate(best["ranks"]):
+                for i, n in enumerate(s["nodes"]):
+                    if n.get("tags") and used[0] < budget:
+                        cand = copy.deepcopy(best)
+                        cand["ranks"][ri]["nodes"][i].pop("tags")
+                        if test(cand):
+                            best = cand
+    # 4. outputs that nothing communicating hangs on
+    for ri in range(best["nranks"]):
+        k = len(best["ranks"][ri]["outputs"]) - 1
+        while k >= 0 and used[0] < budget:
+            s = best["ranks"][ri]
+            if len(s["outputs"]) > 1:
+                cand = copy.deepcopy(best)
+                del cand["ranks"][ri]["outputs"][k]
+                cand = gc_case(cand)
+                if _ncomm(cand) == _ncomm(best) and test(cand):
+                    best = cand
+            k -= 1
+    # 5. operation nodes -> inputs carrying their value
+    changed = True
+    while changed and used[0] < budget:
+        changed = False
+        vals = values(best)
+        if vals is None:
+            break
+        for ri, s in enumerate(best["ranks"]):
+            order = sorted(range(len(s["nodes"])), reverse=True)
+            for i in order:
+                n = s["nodes"][i]
+                if n["op"] in INPUT_OPS + ("recv", "sendhold") or not node_refs(n):
+                    continue
+                if vals[ri][i] is None:
+                    continue
+                names = {q["p"].get("name") for q in s["nodes"]
+                         if q["op"] == "placeholder"}
+                k = 0
+                while f"m{k}" in names:
+                    k += 1
+                repl = _value_to_input(vals[ri][i], f"m{k}")
+                if repl is None:
+                    continue
+                cand = copy.deepcopy(best)
+                cand["ranks"][ri]["nodes"][i] = repl
+                cand = gc_case(cand)
+                if _ncomm(cand) == _ncomm(best) and sum(
+                        len(q["nodes"]) for q in cand["ranks"]) < sum(
+                        len(q["nodes"]) for q in best["ranks"]) and test(cand):
+                    best = cand
+                    changed = True
+                    break
+            if changed:
+                break
+    # 6. plain integer tags
+    tags: list = []
+    for s in best["ranks"]:
+        for n in s["nodes"]:
+            if n["op"] in ("recv", "sendhold"):
+                v = decode_tag(n["p"]["tag"])
+                if all(v != u for u in tags):
+                    tags.append(v)
+    if any(not isinstance(t, int) for t in tags) and used[0] < budget:
+        cand = copy.deepcopy(best)
+        for s in cand["ranks"]:
+            for n in s["nodes"]:
+                if n["op"] in ("recv", "sendhold"):
+                    v = decode_tag(n["p"]["tag"])
+                    n["p"]["tag"] = ["int", 10 + [k for k, u in enumerate(tags)
+                                                  if u == v][0]]
+        if test(cand):
+            best = cand
+    return best
+
+# }}}
+
+
+def toposort_rank(spec) -> dict:
+    """Reorder the nodes of one rank so that operands precede their users
+    (fault injection appends nodes that earlier nodes are then made to use)."""
+    nodes = spec["nodes"]
+    order: list[int] = []
+    state = [0] * len(nodes)
+
+    def visit(i: int) -> None:
+        if state[i] == 2:
+            return
+        if state[i] == 1:
+            raise ModelError("rank-local cycle")
+        state[i] = 1
+        for j in node_refs(nodes[i]):
+            visit(j)
+        state[i] = 2
+        order.append(i)
+    for i in range(len(nodes)):
+        visit(i)
+    remap = {old: new for new, old in enumerate(order)}
+    out_nodes = []
+    for old in order:
+        n = copy.deepcopy(nodes[old])
+        if "args" in n:
+            n["args"] = [["n", remap[a[1]]] if a[0] == "n" else a
+                         for a in n["args"]]
+        out_nodes.append(n)
+    return {"nodes": out_nodes,
+            "outputs": [[k, remap[i]] for k, i in spec["outputs"]]}
